@@ -400,6 +400,12 @@ func (e *Engine) discharge(o *Obligation, dir string, idx int, timeoutS int, tho
 	}
 	var all []solveResult
 	final := solveResult{status: "unknown"}
+	var graceTimer *time.Timer
+	defer func() {
+		if graceTimer != nil {
+			graceTimer.Stop()
+		}
+	}()
 	for k := 0; k < nRacers; k++ {
 		r := <-results
 		if r.status == "cancelled" {
@@ -415,6 +421,10 @@ func (e *Engine) discharge(o *Obligation, dir string, idx int, timeoutS int, tho
 			if !thorough {
 				cancel()
 				break
+			}
+			// thorough: give the other solvers a grace period to confirm or contradict, then stop waiting
+			if graceTimer == nil {
+				graceTimer = time.AfterFunc(4*time.Second, cancel)
 			}
 		} else if final.status == "unknown" && r.status != "unknown" {
 			final.status = r.status
